@@ -1,4 +1,4 @@
-"""C13 - the return value of a step alone decides what happens next, with exact arguments (restore part: module Checkpoint)."""
+"""C13 - the return value of a step alone decides what happens next, with exact arguments, also across a checkpoint restore."""
 from .. import core_check, core_model
 from . import core_cfg as C
 
@@ -10,18 +10,30 @@ PROP = []
 def run(tier, seed):
     ov = [('ResumeVals', 'MCResumeVals')]
     xd = 'MCResumeVals == {"v1", "v0", "NULL"}\n'
-    progs = C.ALL + ['P20', 'P21', 'P22', 'P23']
+    progs = C.ALL + ['P20', 'P21', 'P22', 'P23', 'P24']
     ppr = ['resume', 'pause', 'play']
+    pe = core_model.plan_entry
+    pfault = [[]] + [[pe(h, o, 'fault', 'X')] for h in ('on_pausing', 'on_paused', 'on_playing') for o in (1, 2)]
+    saves = [[]] + [[pe('cb_entered', o, 'save')] for o in (1, 2, 3)]
+    rkn = {'medium': 'none', 'listener': False}
     if tier == 'quick':
         mc = [dict(name='C13_resume', progs=C.fam(progs), plans=[[]], alphabet=['resume'], k=3, invariants=INV, overrides=ov, extra_defs=xd),
               dict(name='C13_env', progs=C.fam(progs), plans=[[]], alphabet=ppr, k=3, invariants=INV[:1] + INV[2:], overrides=ov, extra_defs=xd)]
         rp = [dict(name='C13_resume', progs=C.fam(progs), plans=[[]], alphabet=['resume'], k=3, overrides=ov, extra_defs=xd),
-              dict(name='C13_env', progs=C.fam(['P04', 'P14', 'P20', 'P21', 'P22']), plans=[[]], alphabet=ppr, k=2, overrides=ov, extra_defs=xd)]
+              dict(name='C13_env', progs=C.fam(['P04', 'P14', 'P20', 'P21', 'P22']), plans=[[]], alphabet=ppr, k=2, overrides=ov, extra_defs=xd),
+              dict(name='C13_pausefault', progs=C.fam(['P04', 'P14', 'P22']), plans=pfault, alphabet=['pause', 'play'], k=2),
+              dict(name='C13_restore', progs=C.fam(['P04', 'P20', 'P24']), plans=saves, alphabet=['restore'], k=1, run_kw=rkn)]
+        mc.append(dict(name='C13_pausefault', progs=C.fam(['P04', 'P14', 'P22']), plans=pfault, alphabet=['pause', 'play'], k=2, invariants=INV[:1]))
+        mc.append(dict(name='C13_restore', progs=C.fam(progs), plans=saves, alphabet=['save', 'restore', 'resume'], k=3, invariants=INV[:1] + ['C08_Equivalent']))
     else:
         mc = [dict(name='C13_resume', progs=C.fam(progs), plans=[[]], alphabet=['resume'], k=5, invariants=INV, overrides=ov, extra_defs=xd),
               dict(name='C13_env', progs=C.fam(progs), plans=[[]], alphabet=ppr, k=5, invariants=INV[:1] + INV[2:], overrides=ov, extra_defs=xd)]
         rp = [dict(name='C13_resume', progs=C.fam(progs), plans=[[]], alphabet=['resume'], k=4, overrides=ov, extra_defs=xd),
-              dict(name='C13_env', progs=C.fam(progs), plans=[[]], alphabet=ppr, k=3, overrides=ov, extra_defs=xd)]
+              dict(name='C13_env', progs=C.fam(progs), plans=[[]], alphabet=ppr, k=3, overrides=ov, extra_defs=xd),
+              dict(name='C13_pausefault', progs=C.fam(['P04', 'P14', 'P20', 'P22']), plans=pfault, alphabet=['pause', 'play', 'resume'], k=3),
+              dict(name='C13_restore', progs=C.fam(progs), plans=saves, alphabet=['restore', 'resume'], k=2, run_kw=rkn)]
+        mc.append(dict(name='C13_pausefault', progs=C.fam(progs), plans=pfault, alphabet=['pause', 'play', 'resume'], k=3, invariants=INV[:1]))
+        mc.append(dict(name='C13_restore', progs=C.fam(progs), plans=saves, alphabet=['save', 'restore', 'resume'], k=4, invariants=INV[:1] + ['C08_Equivalent']))
     return core_check.run_check(
         PID, tier, seed, mc, rp,
         level_text='TLC exhaustive + replay of every behaviour of the dumped state graphs into the real Process',
